@@ -399,40 +399,33 @@ func c17(r *core.Run) {
 		fn   *ssa.Function
 	}
 	vals := []vf{{"(Pattern).IsValid", methodNamed(p, "", "Pattern", "IsValid")}, {"IsValidRID", p.Func("IsValidRID")}, {"isValidPart", p.Func("isValidPart")}}
-	ref := ""
 	for _, v := range vals {
 		if v.fn == nil {
 			r.Unres("G2", v.name, "missing")
 			continue
 		}
-		lo, hi := int64(-1), int64(-1)
-		for _, f := range runeRejections(v.fn) {
-			switch f.op {
-			case token.LSS:
-				lo = f.k
-			case token.LEQ:
-				lo = f.k + 1
-			case token.GTR:
-				hi = f.k
-			case token.GEQ:
-				hi = f.k - 1
+		// the accepted class under "every character of the argument is v" (one dataflow run per v)
+		cc := classOf(p, v.fn)
+		bad := ""
+		for _, ch := range charReps {
+			if cc.Accept[ch] && (ch < 33 || ch > 126) && bad == "" {
+				bad = fmt.Sprintf("accepts character %#x outside 33..126", ch)
 			}
 		}
-		q := false
-		for _, b := range v.fn.Blocks {
-			for _, in := range b.Instrs {
-				if bo, ok := in.(*ssa.BinOp); ok && bo.Op == token.EQL {
-					if k, ok := core.ConstInt(bo.Y); ok && k == '?' {
-						q = true
-					}
-				}
+		for _, ch := range "azAZ09_-" {
+			if !cc.Accept[int(ch)] && bad == "" {
+				bad = fmt.Sprintf("rejects the ordinary character %q", ch)
 			}
 		}
-		sig := fmt.Sprintf("accepts %d..%d, singles out '?'=%v", lo, hi, q)
-		if ref == "" {
-			ref = sig
+		if cc.Extractions == 0 {
+			bad = "does not look at the characters of its argument"
 		}
-		r.Check(sig == ref && lo == 33 && hi == 126 && q, "G2", v.name, "character-class", p.Pos(v.fn.Pos()), sig, "validators disagree on the character class: "+v.name+" "+sig+" vs "+ref+" (expected 33..126 with '?' special)")
+		q := cc.ComparesWith['?']
+		if !q && bad == "" {
+			bad = "does not single out '?'"
+		}
+		sig := fmt.Sprintf("accepts only 33..126 (all of a-z A-Z 0-9 _ -), singles out '?'=%v", q)
+		r.Check(bad == "", "G2", v.name, "character-class", p.Pos(v.fn.Pos()), sig, "validators disagree on the character class: "+v.name+" "+bad+" (expected: exactly the printable non-space ASCII range 33..126 with '?' special)")
 	}
 
 	// ---- G3 --------------------------------------------------------------
